@@ -13,6 +13,10 @@ package getbytes
 //@ ufunc lebyte(x int, j int) int
 //@ lemma lebyte_def assumed: forall x int, j int :: {lebyte(x, j)} lebyte(x, j) == ite(j == 0, x % 256, ite(j == 1, (x / 256) % 256, ite(j == 2, (x / 65536) % 256, ite(j == 3, (x / 16777216) % 256,
 //@        ite(j == 4, (x / 4294967296) % 256, ite(j == 5, (x / 1099511627776) % 256, ite(j == 6, (x / 281474976710656) % 256, (x / 72057594037927936) % 256)))))))
+// Reassembling the eight little-endian bytes of x gives x modulo 2^64 (proved by Lean's omega on every run).
+//@ lemma le64sum C14 lean: forall x int :: x % 256 + 256 * ((x / 256) % 256) + 65536 * ((x / 65536) % 256) + 16777216 * ((x / 16777216) % 256) + 4294967296 * ((x / 4294967296) % 256)
+//@        + 1099511627776 * ((x / 1099511627776) % 256) + 281474976710656 * ((x / 281474976710656) % 256) + 72057594037927936 * ((x / 72057594037927936) % 256) == x % 18446744073709551616
+
 // IEEE-754 bit patterns are uninterpreted (floats are idealised as reals elsewhere).
 //@ ufunc f32bits(x float32) int
 //@ ufunc f64bits(x float64) int
